@@ -245,7 +245,12 @@ def run(ctx, R, tier):
     dcf = ctx.fn("Pyro5.svr_threads.ClientConnectionJob.denyConnection")
     dcfg = ctx.cfg(dcf)
     hs = ctx.calls_to(dcf, "Pyro5.server.Daemon._handshake")
-    ok = len(hs) == 1 and any(k.arg == "denied_reason" and unparse(k.value) == dcf.params[1] for k in hs[0].keywords)
+    hsp = ctx.fn("Pyro5.server.Daemon._handshake").params[1:]
+    dpos = hsp.index("denied_reason") if "denied_reason" in hsp else None
+    if dpos is None:
+        raise AnalysisError("Daemon._handshake no longer has a denied_reason parameter")
+    given = [next((k.value for k in h.keywords if k.arg == "denied_reason"), h.args[dpos] if len(h.args) > dpos else None) for h in hs]
+    ok = len(hs) == 1 and given[0] is not None and unparse(given[0]) == dcf.params[1]
     R.check(ok, "C18-R3", "denyConnection|handshake-with-reason", "the refusal is a failed handshake carrying the reason", dcf.loc(),
             "denyConnection no longer passes its reason to Daemon._handshake(denied_reason=...)")
     closes = [n for c in ctx.calls_to(dcf, "Pyro5.socketutil.SocketConnection.close") for n in ctx.node_of(dcf, c)]
